@@ -231,6 +231,7 @@ type pendingQuery struct {
 	intScript string
 	intSmall  string
 	dyScript  string
+	dyScript2 string
 	intFine   string // the formula over the fine dyadic lattice k/2^22, |k| <= 8 (sat only)
 	unknowns  *int32 // shared per job
 	noRetry   bool
@@ -578,6 +579,8 @@ func (r *Runner) runJob(job Job) *JobResult {
 				if ob.Kind != "cover" && job.IntBound == 0 {
 					// last resort for a replayable model: dyadic rationals k / 2^50 with |k| <= 2^52
 					q.dyScript = Script([]*Term{ob.Formula}, ScriptOpts{GetValues: gv, IntVars: iv, IntBound: 1 << 52, IntScale: 50})
+					// and the doubles of [-1, 1] at full resolution: k / 2^53
+					q.dyScript2 = Script([]*Term{ob.Formula}, ScriptOpts{GetValues: gv, IntVars: iv, IntBound: 1 << 53, IntScale: 53})
 				}
 				if !job.NoLattice {
 					q.intSmall = Script([]*Term{ob.Formula}, ScriptOpts{GetValues: gv, IntVars: iv, IntBound: 8})
@@ -694,8 +697,11 @@ func (r *Runner) solveOne(q *pendingQuery, traceNames []string) {
 					model, ok, sr = m3, true, sr3
 				}
 			}
-			if !ok && q.dyScript != "" {
-				sr4 := runSolver(q.dyScript, q.timeout, solverBin)
+			for _, ds := range []string{q.dyScript, q.dyScript2} {
+				if ok || ds == "" {
+					continue
+				}
+				sr4 := runSolver(ds, q.timeout, solverBin)
 				q.res.Ms += sr4.ms
 				if sr4.status == "sat" {
 					if m4, ok4 := extractModel(sr4, q.getvals); ok4 {
